@@ -279,7 +279,19 @@ fn run_vector(ctx: &Ctx, i: usize, vec: &Value, docs_model: u64) -> Value {
             "fault" => {
                 match what {
                     "meta_Absent" => {
-                        let _ = std::fs::remove_file(&meta_path);
+                        // "metadata missing" is realised in several ways: deleted, or moved aside (a stray copy next to it
+                        // must not be mistaken for the metadata)
+                        match i % 3 {
+                            0 => {
+                                let _ = std::fs::remove_file(&meta_path);
+                            }
+                            1 => {
+                                let _ = std::fs::rename(&meta_path, data.join("meta.json.tmp"));
+                            }
+                            _ => {
+                                let _ = std::fs::rename(&meta_path, data.join("meta.json.bak"));
+                            }
+                        }
                     }
                     "meta_Garbage" => {
                         let g: &[u8] = match i % 4 {
